@@ -56,6 +56,12 @@ def keyfree(self_free):
              includes=["models/redir_thread.h"], export_local=True, remove_bodies=["p_spinlock_lock"],
              unwindset={"strlen.0": 4}, timeout=900, object_bits=11, funcs=FUNCS + ["p_uthread_local_free", "p_uthread_shutdown"],
              bounds={"threads": 1 if self_free else 2, "order": "store < local_free < thread end (fixed)", "exit_style": "symbolic"})
+def shutdownq(joinable):
+    return Q("shutdown_in_thread_%s" % ("J" if joinable else "D"), "harness/C05_shutdown.c", units=UNITS, models=MODELS,
+             defs=["TE_NT=1", "TE_DEPTH=1", "JOINABLE_T=%d" % joinable] + EMUL,
+             includes=["models/redir_thread.h"], export_local=True, remove_bodies=["p_spinlock_lock"],
+             unwindset={"strlen.0": 4}, timeout=900, object_bits=11, funcs=FUNCS + ["p_uthread_shutdown", "p_uthread_local_free", "p_spinlock_free"],
+             bounds={"threads": 1, "script": "init, create T, T: current [ref unref] shutdown return, [join], unref"})
 def fam(f, nops, tops, depth, pos_b=99, ja=1, jb=1, prewarm=True, named=False, timeout=1500):
     defs = ["POS_B=%d" % pos_b, "JOINABLE_A=%d" % ja, "JOINABLE_B=%d" % jb]
     if f != "ALL": defs.append("FAM_" + f)
@@ -86,7 +92,7 @@ def queries(tier):
         # lazy creation of the platform key raced by main and 1 / 2 threads (user key, library key)
         qs += [race(False, 1), race(True, 1), race(False, 1, ["RACE_LIB"]), race(True, 1, ["RACE_LIB"])]
         # reference key freed while a thread still holds a value under it, then the thread ends
-        qs += [keyfree(True), keyfree(False)]
+        qs += [keyfree(True), keyfree(False), shutdownq(1), shutdownq(0)]
     else:
         qs += [fam("LIFE", 5, 2, 1, ja=1), fam("LIFE", 5, 2, 1, ja=0), fam("LIFE", 4, 2, 1, ja=1, named=True), fam("LIFE", 4, 2, 1, ja=0, named=True)]
         qs += [fam("LIFE", 4, 2, 1, pos_b=pb, ja=ja, jb=jb, timeout=3000) for pb in (0, 1, 2) for ja, jb in JD]
@@ -98,5 +104,5 @@ def queries(tier):
         # preemption depth 2: B inside A inside main
         qs += [fam("LIFE", 1, 1, 2, pos_b=0, timeout=3000), fam("LIFE", 1, 1, 2, pos_b=0, ja=0, jb=0, timeout=3000)]
         qs += [race(False, 1), race(True, 1), race(False, 1, ["RACE_LIB"]), race(True, 1, ["RACE_LIB"])]
-        qs += [keyfree(True), keyfree(False)]
+        qs += [keyfree(True), keyfree(False), shutdownq(1), shutdownq(0)]
     return qs
